@@ -3,3 +3,7 @@ check("C04", "other",
       "PartialJoin) is executed under symx; the returned commutator is interpreted by the relmodel oracle on a target of N "
       "symbolic rows (arbitrary order, duplicates) and z3 decides sequence equality with 'existing then new'.",
       BSV, "3/C04")
+check("C13", "other",
+      "Bounded symbolic verification over predicate/expression shapes: as_trivial, flatten_logical_and, Selection "
+      "normalisation and columns_required sufficiency are decided by z3 for all integer rows and literals (unbounded) per shape; "
+      "shapes enumerated to a stated nesting depth.", BSV, "3/C13")
